@@ -72,7 +72,9 @@ class DurationObserver(FeatureObserver):
             self.features[FeatureType.MACHINES][machine_id, 0] = machine_load
 
     def _initialize_job_durations(self):
-        job_durations = self.dispatcher.instance.job_durations
+        job_durations = [0] * self.dispatcher.instance.num_jobs
+        for operation in self.dispatcher.unscheduled_operations():
+            job_durations[operation.job_id] += operation.duration
         for job_id, job_duration in enumerate(job_durations):
             self.features[FeatureType.JOBS][job_id, 0] = job_duration
 
